@@ -1388,7 +1388,8 @@ def gen_env_cases(rng, p_random=0.4):
         n = rng.randint(3, 40)
         acts = [rng.randrange(nact) for _ in range(n)]
         reads = [rng.choice(['', 'o', 'oo', 's', 'os', 'r']) for _ in range(n)]
-        yield dict(kind='env', seed=rng.randrange(2**31), actions=acts, reads=reads, **src)
+        # seed 0 is a seed like any other (a boundary value: it is falsy)
+        yield dict(kind='env', seed=0 if rng.random() < 0.12 else rng.randrange(2**31), actions=acts, reads=reads, **src)
 
 
 def custom_env(cu):
@@ -1455,7 +1456,7 @@ def gen_custom_env_case(rng):
             obs = rng.choice(['fully_transparent', 'raytracing'])
         trans = rng.choice([['move_agent', 'turn_agent'], ['turn_agent', 'move_agent', 'actuate_door', 'pickndrop'], ['move_agent', 'turn_agent', 'move_obstacles']])
         n = rng.randint(3, 25)
-        return dict(kind='env', seed=rng.randrange(2**31), actions=[rng.randrange(8) for _ in range(n)],
+        return dict(kind='env', seed=0 if rng.random() < 0.12 else rng.randrange(2**31), actions=[rng.randrange(8) for _ in range(n)],
                     reads=[rng.choice(['', 'o', 'oo', 's', 'os', 'o', 'so']) for _ in range(n)],
                     custom={'state': enc_state(s), 'area': area, 'obs': obs, 'trans': trans})
     return None
@@ -2276,9 +2277,50 @@ class C01(Oracle):
             c['kind'] = 'traj'
             c['actions'] = c['actions'][:20]
             yield c
+            # (c) user-reset environments: poses no built-in layout contains (borderless rooms, a view that is
+            # exactly the whole grid)
+            cu = gen_custom_env_case(rng)
+            if cu is not None:
+                cu['kind'] = 'custom'
+                yield cu
 
     def from_line(self, line):
         return None
+
+    def _custom(self, c):
+        out = []
+        try:
+            env = custom_env(c['custom'])
+        except Exception:
+            return out
+        env.set_seed(c['seed'])
+        s = env.functional_reset()
+        if not env.state_space.contains(s):
+            return out
+        where = f"user-reset environment {c['custom']}"
+        for k, ai in enumerate([None] + list(c['actions'][:6])):
+            if ai is not None:
+                a = ACTIONS[ai]
+                try:
+                    s, r, d = env.functional_step(s, a)
+                except Exception as e:
+                    out.append(V('functional_step/raises', f'{type(e).__name__}: {e} at step {k} of {where}'))
+                    return out
+                if not env.state_space.contains(s):
+                    out.append(V('functional_step/next-state-outside-space', f'step {k} of {where}'))
+                    return out
+            snap = enc_state(s)
+            try:
+                o = env.functional_observation(s)
+            except Exception as e:
+                out.append(V('functional_observation/raises', f'{type(e).__name__}: {e} at step {k} of {where}'))
+                return out
+            if not env.observation_space.contains(o):
+                out.append(V('functional_observation/outside-space', f'step {k} of {where}'))
+            if enc_state(s) != snap or not env.state_space.contains(s):
+                out.append(V('functional_observation/changes-the-state-it-observes', f'step {k} of {where}: {snap} -> {enc_state(s)}'))
+                return out
+        return out
 
     def _prep_state(self, env, data, s):
         """make the documented preconditions of the configured rewards true"""
@@ -2316,6 +2358,8 @@ class C01(Oracle):
         from gym_gridverse.grid_object import Exit, Floor
 
         out = []
+        if c['kind'] == 'custom':
+            return self._custom(c)
         if c['kind'] == 'traj':
             env = env_of_case(c)
             env.set_seed(c['seed'])
